@@ -151,6 +151,19 @@ def _gen_cases(tier, seed):
                    "parts": ["ktensor", "tensor"], "rdims": [0], "cdims": list(range(1, len(shp)))}
 
 
+    # Kruskal tensors with as many or more components than entries (rank = entries - 1, entries, entries + 1, twice the entries)
+    for shp in [(2, 2), (2, 3), (3, 2), (2, 2, 2), (1, 3), (2, 1, 2), (3,), (2, 3, 2)]:
+        cells = int(np.prod(shp))
+        for R in sorted({max(1, cells - 1), cells, cells + 1, 2 * cells}):
+            w, fm = gen.rand_ktensor_parts(rng, shp, R)
+            core, tf = gen.rand_ttensor_parts(rng, shp, [1] * len(shp))
+            r, c = gen.ordered_partitions(len(shp))[int(rng.integers(0, len(gen.ordered_partitions(len(shp)))))]
+            yield {"w": "structured", "shape": list(shp), "R": R, "weights": w.tolist(), "factors": [f.tolist() for f in fm],
+                   "core": core.tolist(), "tfactors": [f.tolist() for f in tf], "sparse_core": False,
+                   "dense": gen.normals(rng, shp).tolist(), "sparse": gen.sparsify(rng, gen.normals(rng, shp), "some").tolist(),
+                   "parts": ["ktensor", "sptensor"], "rdims": r, "cdims": c, "overcomplete": ["below", "equal", "above"][int(np.sign(R - cells)) + 1]}
+
+
 def _nnzc(n):
     return "0" if n == 0 else ("1" if n == 1 else "2+")
 
@@ -385,7 +398,7 @@ def _structured(case, ctx, shape):
     ctx.feat(dense_type=dtp)
     sparse = gen.mk_sptensor(ttb, np.array(case["sparse"], dtype=float).reshape(shape))
     holders = {"ktensor": K, "ttensor": TT, "tensor": dense, "sptensor": sparse}
-    ctx.feat(R=case["R"])
+    ctx.feat(R=min(case["R"], 4), components_vs_entries=case.get("overcomplete", "below"))
     for name, H in (("ktensor", K), ("ttensor", TT)):
         ref = denote(H)
         for meth in ("full", "to_tensor", "double"):
